@@ -13,6 +13,12 @@ for _k in ("OPENBLAS_NUM_THREADS", "OMP_NUM_THREADS", "MKL_NUM_THREADS"):
 
 from dsim import common  # noqa: E402
 
+# VERIF_REPO=<dir> points every engine at another checkout (used by the mutant self-test on scratch copies);
+# default is /repo's working tree through the editable install
+_repo = os.environ.get("VERIF_REPO")
+if _repo and os.path.isdir(os.path.join(_repo, "onnxscript")):
+    sys.path.insert(0, _repo)
+
 
 def main(argv=None) -> int:
     ap = argparse.ArgumentParser(prog="dsim")
